@@ -425,9 +425,17 @@ pub mod sched {
             BOOK.inner_budget = INNER;
             // optional warm-up by the inner thread so that the outer thread starts on a used free-list
             hook::<CAP>();
-            verif_set_hook(hook::<CAP>);
             let mut mine: [u32; MAXC] = [0; MAXC];
             let mut nmine = 0usize;
+            // the outer thread may already hold an index when the race starts, so that its single
+            // racing operation can be a release as well as an acquire
+            if kani::any::<bool>() {
+                if let Some(i) = outer_acquire(&s) {
+                    mine[nmine] = i;
+                    nmine += 1;
+                }
+            }
+            verif_set_hook(hook::<CAP>);
             let mut k = 0;
             while k < OUTER {
                 if nmine > 0 && kani::any::<bool>() {
@@ -486,11 +494,11 @@ pub mod sched {
         }
     }
 
-    proof!(6, fn c09_s_uis_race_cap2() { race::<2, 2, 2>(false); canaries(); });
-    proof!(6, fn c09_s_uis_race_cap2_lock() { race::<2, 2, 2>(true); canaries(); });
-    proof!(7, fn c09_s_uis_race_cap3_deep() { race::<3, 2, 3>(false); canaries(); });
+    proof!(6, fn c09_s_uis_race_cap2() { race::<2, 1, 3>(false); canaries(); });
+    proof!(6, fn c09_s_uis_race_cap2_lock() { race::<2, 1, 3>(true); canaries(); });
+    proof!(7, fn c09_s_uis_race_cap3_deep() { race::<2, 2, 3>(false); canaries(); });
     proof!(7, fn c09_s_uis_race_cap2_lock_deep() { race::<2, 2, 3>(true); canaries(); });
-    proof!(6, fn c09_s_uis_race_cap1() { race::<1, 2, 2>(false); canaries(); });
+    proof!(6, fn c09_s_uis_race_cap1() { race::<1, 1, 2>(false); canaries(); });
 
     // ---- robust index set: recovery of a dead owner racing with another recoverer and a live owner
 
